@@ -77,6 +77,14 @@ def oracle(script: dict, run: Any) -> List[Violation]:
             continue
         lo = p["wall"]
         hi = ps[pi + 1]["wall"] if pi + 1 < len(ps) and ps[pi + 1]["wall"] is not None else end
+        for si in p["failed"]:
+            for sid, sp in specs.items():
+                if sp["source"] != si or sp.get("cron") is None:
+                    continue
+                got = [e for e in kicks.get(sid, []) if lo <= e[2] < hi]
+                if got:
+                    out.append(Violation("C15/sent-although-listing-failed", f"cron schedule {sid} was sent in the poll period starting at {from_us(lo).isoformat()} "
+                                         f"although source {si} failed to list in that poll", sid=sid))
         for si, ids in p["listed"].items():
             for sid in ids:
                 sp = specs.get(sid)
